@@ -386,7 +386,7 @@ def check_property(pid, tier, scratch, write_baseline=False):
                 continue
             fl_list = [] if "*" in fns else sorted(fns)
             br = bounded.run(u, fl_list, REPO, scratch, deep=deep)
-            bounded_runs.append(dict(unit=u, functions=sorted(fns), deep=deep, ran=br["ran"], failures=br["failures"][:10], note=br.get("note", ""), cmd=br.get("cmd"), wall_s=br.get("wall_s"),
+            bounded_runs.append(dict(unit=u, functions=sorted(fns), deep=deep, ran=br["ran"], failures=br["failures"][:10], note=br.get("note", ""), cases_run=br.get("cases_run", {}), cmd=br.get("cmd"), wall_s=br.get("wall_s"),
                                      bound="see the header of contracts/bounded/%s.rs" % u))
             if br["ran"]:
                 for fl in br["failures"]:
